@@ -559,7 +559,7 @@ def utf8_cases(env):
                 for d in edge:
                     out.append(bytes([a, b, c, d]))
             out.append(bytes([a, b, 0x80]))
-    for _ in range(env.scale(2000, 60000)):
+    for _ in range(env.scale(3000, 150000)):
         s = bytearray(rand_text(rng, 6))
         if s and rng.random() < 0.6:
             k = rng.randrange(len(s))
@@ -783,13 +783,13 @@ def _run(env, rep, impl):
     rep.exhaustive_parts.append("boundary table: deltas/lengths %s, 256 nibble pairs, TKL 0..15" % BOUNDS)
 
     # random structured messages
-    specs = [rand_spec(impl, rng) for _ in range(env.scale(5000, 120000))]
+    specs = [rand_spec(impl, rng) for _ in range(env.scale(8000, 250000))]
     rw = run_enc(env, rep, impl, specs, "random")
     run_dec(env, rep, impl, rw, "random-wire", transports=False)
     # RFC-valid datagrams the library itself would never write: non-minimal integers, laid out by
     # the oracle's serialiser
     alt = []
-    for spec in specs[: env.scale(1500, 30000)]:
+    for spec in specs[: env.scale(2500, 60000)]:
         if not spec_wellformed(spec, impl.kind_of):
             continue
         f = spec_fields(spec)
@@ -802,7 +802,7 @@ def _run(env, rep, impl):
     exhaustive_seeds = cseeds
     others = [w for w in rw if 5 <= len(w) <= 400]
     rng.shuffle(others)
-    seeds = exhaustive_seeds + others[: env.scale(250, 6000)]
+    seeds = exhaustive_seeds + others[: env.scale(400, 12000)]
     if len(exhaustive_seeds) < 3:
         raise HarnessError("corpus does not provide three seed datagrams")
     mal = mutations(env, seeds, exhaustive=len(exhaustive_seeds))
